@@ -1,4 +1,5 @@
 import OrdModel.Proofs.RunestoneEncipher
+import OrdModel.Proofs.RunestoneFields
 /-!
 # C25 — Runestones round-trip and deciphering is total with the documented flaws
 
@@ -107,6 +108,27 @@ theorem c25_flaw_order (scripts : List (List UInt8)) (hn : scripts.length < 2 ^ 
             · cases ha
           · cases h
           · cases h
+
+/-- **Unrecognized even tag, declaratively.**  "An even tag is left over after all recognised
+fields are taken" holds exactly when some even tag carries more values than `decipher` consumes
+for it (`consumed`): an unknown even tag, a known one whose flag is not set, a repeated one, or
+one whose value is out of range (u64 for heights/offsets, `< min(n, 2^32)` for the pointer,
+a valid id for the mint pair). -/
+theorem c25_even_tag_spec (n : Nat) (fs : Fields) : leftoverEvenTag n fs = specEvenTag n fs :=
+  leftoverEvenTag_eq_spec n fs
+
+/-- **Flaw order, fully declarative** (`specFlaw` uses `specEvenTag`; this is the predicate the
+`runestone.oracle.flaw` lines evaluate on the implementation's answers). -/
+theorem c25_flaw_order_spec (scripts : List (List UInt8)) (hn : scripts.length < 2 ^ 32)
+    (a : Artifact) (h : decipher scripts = .ok (some a)) :
+    a.flaw = specFlaw scripts ∧ ((∃ r, a = .runestone r) ↔ specFlaw scripts = none) := by
+  have : specFlaw scripts = specFlawWith leftoverEvenTag scripts := by
+    unfold specFlaw
+    congr 1
+    funext n fs
+    exact (leftoverEvenTag_eq_spec n fs).symm
+  rw [this]
+  exact c25_flaw_order scripts hn a h
 
 /-- **A cenotaph keeps the etched name and the mint** (and so does a runestone): whenever the
 payload is readable, the artifact's rune name is the first `Rune` value if the etching flag is
